@@ -714,6 +714,132 @@ def noise_specs(ctx):
     return specs
 
 
+# ---- F. bad atoms with an interaction matrix that changes during the run (SLM mask ending) -----------------------------
+SLM_TOL = {"sv": 1e-7, "mps": 1e-6}     # relative (+1) agreement with the run on the reduced register, same backend
+
+
+def slm_spec(backend, n, bad, slm, seed, perm=None, steps=8, dt=20.0, switch_step=4):
+    return {"kind": "slm", "backend": backend, "n": n, "bad": [bool(x) for x in bad], "slm": [bool(x) for x in slm],
+            "seed": int(seed), "perm": perm, "steps": steps, "dt": dt, "switch_step": switch_step, "scale": 2.0}
+
+
+class SwitchingU:
+    """interaction matrix of a sequence with an SLM mask: rows/columns of the masked atoms are zero before t_switch"""
+
+    def __init__(self, U, masked, t_switch):
+        self.full = np.array(U, dtype=float)
+        self.masked = self.full.copy()
+        idx = [i for i, m in enumerate(masked) if m]
+        self.masked[idx, :] = 0.0
+        self.masked[:, idx] = 0.0
+        self.t_switch = t_switch
+
+    def __call__(self, t):
+        return self.masked if t < self.t_switch else self.full
+
+
+def slm_single_run(backend, prob, bad, spe, Uoft, perm, et):
+    import emu_mps
+    import emu_sv
+    from pulser.backend import Energy, EnergySecondMoment, EnergyVariance, Occupation
+
+    obs = [Occupation(evaluation_times=et), Energy(evaluation_times=et), EnergyVariance(evaluation_times=et),
+           EnergySecondMoment(evaluation_times=et)]
+    data = D.to_sequence_data(prob, bad_atoms=bad, state_prep_error=spe, U_of_t=Uoft)
+    with warnings.catch_warnings():
+        warnings.simplefilter("ignore")
+        if backend == "mps":
+            with Forced(perm if perm else list(range(prob["n"]))):
+                res = emu_mps.MPSBackend._run_from_sequence_data(data, mps_config(obs, reorder=perm is not None))
+        else:
+            res = emu_sv.SVBackend._run_from_sequence_data(
+                data, emu_sv.SVConfig(observables=obs, gpu=False, log_level=logging.CRITICAL))
+    out = {}
+    for t in et:
+        out[t] = {"occ": np.array([float(x) for x in res.get_result("occupation", t)]),
+                  "energy": float(res.get_result("energy", t)),
+                  "energy_variance": float(res.get_result("energy_variance", t)),
+                  "energy_second_moment": float(res.get_result("energy_second_moment", t))}
+    return out
+
+
+def slm_run(spec):
+    prob = e2e_problem(spec)
+    n, steps = spec["n"], spec["steps"]
+    good = [i for i, x in enumerate(spec["bad"]) if not x]
+    t_switch = prob["times"][spec["switch_step"]]
+    et = [k / steps for k in range(1, steps + 1)]                     # after every step: before and after the switch
+    Ufull = SwitchingU(prob["U"], spec["slm"], t_switch)
+    sub = sub_problem(prob, good)
+    Usub = SwitchingU(sub["U"], [spec["slm"][i] for i in good], t_switch)
+    perm = spec["perm"]
+    sub_perm = [good.index(a) for a in perm if a in good] if perm is not None else None
+    try:
+        full = slm_single_run(spec["backend"], prob, spec["bad"], 0.05, Ufull, perm, et)
+        small = slm_single_run(spec["backend"], sub, [False] * len(good), 0.0, Usub, sub_perm, et)
+    except Exception as ex:  # noqa: BLE001
+        return {"outcome": "raises", "exception": type(ex).__name__, "message": str(ex)[:160]}
+    # independent dense reference of the reduced register (energy with the Hamiltonian of the step just completed)
+    st, Hs = D.evolve(sub["omega"], sub["delta"], sub["phi"], Usub, sub["times"], u_query="mid")
+    worst, worst_ref, first = 0.0, 0.0, None
+    for k, t in enumerate(et, start=1):
+        occ = np.zeros(n)
+        occ[good] = small[t]["occ"]
+        d = float(np.abs(full[t]["occ"] - occ).max())
+        for key in ("energy", "energy_variance", "energy_second_moment"):
+            d = max(d, abs(full[t][key] - small[t][key]) / (1.0 + abs(small[t][key])))
+        if d > worst:
+            worst, first = d, {"t": t, "after_switch": k > spec["switch_step"],
+                               "full": {k2: (v.tolist() if hasattr(v, "tolist") else v) for k2, v in full[t].items()},
+                               "reduced": {k2: (v.tolist() if hasattr(v, "tolist") else v) for k2, v in small[t].items()}}
+        worst_ref = max(worst_ref, abs(full[t]["energy"] - D.energy(st[k], Hs[k - 1])))
+    return {"outcome": "ok", "worst_vs_reduced": worst, "worst_energy_vs_dense": worst_ref, "where": first,
+            "u_changes": bool(np.abs(Usub.full - Usub.masked).max() > 1e-6)}
+
+
+def slm_judge(ctx, spec, r):
+    be = spec["backend"]
+    ctx.count_case({k: spec[k] for k in ("kind", "backend", "n", "bad", "slm", "perm", "seed", "switch_step")}
+                   | {"outcome": r["outcome"]}, nontrivial=any(spec["bad"]) and r.get("u_changes", False))
+    if r["outcome"] == "raises":
+        ctx.violation(f"emu-{be} raises with bad atoms and an interaction switch: {r['exception']}: {r['message']}",
+                      {"spec": spec, "result": r, "finding_key": f"slm-{be}-raises"})
+        return
+    bad = []
+    if r["worst_vs_reduced"] > SLM_TOL[be]:
+        bad.append(f"differs from the run on the reduced register by (relative) {r['worst_vs_reduced']:.3g} at {r['where']}")
+    if r["worst_energy_vs_dense"] > EN_TOL[be] * max(1, spec["n"]):
+        bad.append(f"energy differs from the dense reference by {r['worst_energy_vs_dense']:.3g}")
+    if bad:
+        ctx.violation(f"emu-{be} with bad atoms {spec['bad']} and an SLM-like interaction switch after step "
+                      f"{spec['switch_step']}: " + "; ".join(bad),
+                      {"spec": spec, "result": r, "finding_key": f"dark-atoms-interaction-switch-{be}"})
+
+
+def slm_specs(ctx):
+    rng = ctx.rng
+    specs = []
+    for i in range(ctx.n(3, 12)):
+        n = rng.choice([3, 4]) if not ctx.thorough() else rng.choice([3, 4, 4, 5])
+        seed = rng.randrange(10 ** 6)
+        bad = [False] * n
+        for j in rng.sample(range(n), rng.randint(1, n - 2)):
+            bad[j] = True
+        good = [j for j in range(n) if not bad[j]]
+        slm = [False] * n
+        slm[rng.choice(good)] = True                      # at least one good atom is masked: the reduced U changes
+        if rng.random() < 0.5:
+            slm[rng.choice([j for j in range(n) if bad[j]])] = True
+        perm = None
+        if i % 2 == 1:
+            perm = list(range(n))
+            rng.shuffle(perm)
+        sw = rng.choice([2, 4, 5])
+        specs.append(slm_spec("mps", n, bad, slm, seed, perm=perm, switch_step=sw))
+        specs.append(slm_spec("sv", n, bad, slm, seed, switch_step=sw))
+    return specs
+
+
 def corpus_specs():
     p = common.VERIF / "corpus" / "C25.json"
     return json.loads(p.read_text()) if p.exists() else []
@@ -805,6 +931,8 @@ def run(ctx):
     for spec in corpus_specs():
         if spec.get("kind") == "noise":
             noise_judge(ctx, spec, noise_run(spec))
+        elif spec.get("kind") == "slm":
+            slm_judge(ctx, spec, slm_run(spec))
         else:
             e2e_judge(ctx, spec, e2e_run(spec))
     correspondence(ctx)
@@ -827,6 +955,14 @@ def run(ctx):
                 nworst["min_norm2_no_jump"] = min(nworst["min_norm2_no_jump"], r["norm2_at_end"])
         noise_judge(ctx, spec, r)
     ctx.extra["noise_worst_error"] = nworst
+    sworst = {"vs_reduced": {"sv": 0.0, "mps": 0.0}, "energy_vs_dense": {"sv": 0.0, "mps": 0.0}}
+    for spec in slm_specs(ctx):
+        r = slm_run(spec)
+        if r["outcome"] == "ok":
+            for k, key in (("vs_reduced", "worst_vs_reduced"), ("energy_vs_dense", "worst_energy_vs_dense")):
+                sworst[k][spec["backend"]] = max(sworst[k][spec["backend"]], r[key])
+        slm_judge(ctx, spec, r)
+    ctx.extra["interaction_switch_worst_error"] = sworst
     ctx.rule = ("(a) integer SequenceData for every mask of 1-5 atoms (emu-sv) and every mask x permutation (emu-mps: all "
                 "permutations for N<=4, sampled for N=5; both basis sizes; with/without initial state / state_prep_error): "
                 "recorded solver inputs, filter, qubit_count and exception class vs vm_compute of the model; "
@@ -834,7 +970,9 @@ def run(ctx):
                 "(c) end-to-end runs vs the dense reference of the good-atom sub-register; (d) bad atoms together with hand-built "
                 "relaxation/dephasing Lindblad operators: bad-atom run vs the run on the good-atom sub-register under the same "
                 "python `random` seed (emu-mps Monte-Carlo trajectories, emu-sv density matrix), and a scripted no-jump emu-mps "
-                "trajectory vs the dense normalised H_eff evolution. Non-trivial = at least one bad atom.")
+                "trajectory vs the dense normalised H_eff evolution; (e) bad atoms with an interaction matrix that switches mid-run "
+                "(SLM mask ending, U_of_t): occupation, energy, energy variance and second moment after every step vs the run on "
+                "the reduced register and the dense reference. Non-trivial = at least one bad atom.")
     ctx.trusted_base += ["hand-written Model/DarkSv.v, Model/DarkMps.v (validated by the exact correspondences on every run)",
                          "C06_H_apply_dense / C05 (the Hamiltonians the backends apply are the dense ones the theorems speak about)",
                          "dense reference tools/props/_dense_ref.py (scipy expm) for the falsifier"]
@@ -848,7 +986,11 @@ def run(ctx):
 
 def replay(ctx, path):
     rp = json.load(open(path))
-    if "spec" in rp and rp["spec"].get("kind") == "noise":
+    if "spec" in rp and rp["spec"].get("kind") == "slm":
+        r = slm_run(rp["spec"])
+        print("replay:", r)
+        slm_judge(ctx, rp["spec"], r)
+    elif "spec" in rp and rp["spec"].get("kind") == "noise":
         r = noise_run(rp["spec"])
         print("replay:", r)
         noise_judge(ctx, rp["spec"], r)
